@@ -71,6 +71,29 @@ static inline double C17_strtod(const char* s, char** endp)
   return g_fval;
 }
 
+/* exception classes a handler of the getters can select (C++ standard [std.exceptions]): out_of_range, invalid_argument,
+ * length_error, domain_error derive from logic_error, which derives from exception; the getters' handlers name
+ * std::out_of_range only, which has no derived class in the model */
+#define VERIF_PARENT17(t) \
+  (((t) == EXC_logic_error || (t) == EXC_runtime_error || (t) == EXC_bad_alloc) ? EXC_exception : \
+   ((t) == EXC_out_of_range || (t) == EXC_invalid_argument || (t) == EXC_length_error || (t) == EXC_domain_error) ? EXC_logic_error : \
+   ((t) == EXC_range_error || (t) == EXC_overflow_error || (t) == EXC_underflow_error) ? EXC_runtime_error : EXC_none)
+#define VERIF_CATCHES(x, T) ((x) != EXC_none && ((x) == (T) || VERIF_PARENT17(x) == (T) || VERIF_PARENT17(VERIF_PARENT17(x)) == (T)))
+
+/* std::stod(const string& str, size_t* idx) (ISO C++ [string.conversions] p4-6): calls strtod(str.c_str(), &ptr); throws
+ * invalid_argument if no conversion could be performed, out_of_range if strtod sets errno to ERANGE (the literal
+ * overflows or underflows double -- which literals do is libc's business: nondet); otherwise *idx = ptr - str.c_str(). */
+_Bool nondet_C17_range(void);
+static inline double C17_stod(const vstr* s, size_t* idx)
+{
+  char* verif_e;
+  double v = C17_strtod(C17_c_str(s), &verif_e);
+  if (g_endoff == 0) { verif_exc = EXC_invalid_argument; return 0.0; }
+  if (nondet_C17_range()) { verif_exc = EXC_out_of_range; return 0.0; }
+  if (idx) *idx = g_endoff;
+  return v;
+}
+
 /* text.find('-') on a text that is one complete numeral: the subject sequence of 7.22.1.4p3 is
  * [white space] [+|-] [0x] digits, so a '-' occurs iff the numeral carries the minus sign.  For any other text the
  * answer is not modelled (nondet). */
